@@ -92,6 +92,34 @@ func runC04(rc *RunCtx) {
 			// conservation so far
 			c04Conservation(e)
 		}
+		// an accepted burn message is minted once, whatever administrative actions come between the attempts
+		if rc.Shard%2 == 0 || rc.NShards == 1 {
+			own := e.M.Owner
+			for k := 0; k < rc.Pick(12, 40); k++ {
+				nonce++
+				d := uint32(k % 2)
+				in := StdInbound(nonce, k%NAccounts, big.NewInt(int64(1000+k)))
+				in.Src, in.Sender = d, Messenger(d, 0)
+				raw := in.Bytes()
+				first := e.Exec(Tx{Msgs: msgs1(&ct.MsgReceiveMessage{From: Acct(UserIx), Message: raw, Attestation: e.Attest(raw, 0)}), Note: "C04 first receive"})
+				switch k % 4 {
+				case 0:
+					e.Exec(Tx{Msgs: msgs1(&ct.MsgRemoveRemoteTokenMessenger{From: own, DomainId: d})})
+					e.Exec(Tx{Msgs: msgs1(&ct.MsgAddRemoteTokenMessenger{From: own, DomainId: d, Address: Messenger(d, 0)})})
+				case 1:
+					e.Exec(Tx{Msgs: msgs1(&ct.MsgUnlinkTokenPair{From: e.M.TC, RemoteDomain: d, RemoteToken: Token(0), LocalToken: "uusdc"})})
+					e.Exec(Tx{Msgs: msgs1(&ct.MsgLinkTokenPair{From: e.M.TC, RemoteDomain: d, RemoteToken: Token(0), LocalToken: "uusdc"})})
+				case 2:
+					e.Exec(Tx{Msgs: msgs1(&ct.MsgPauseBurningAndMinting{From: e.M.Pauser})})
+					e.Exec(Tx{Msgs: msgs1(&ct.MsgUnpauseBurningAndMinting{From: e.M.Pauser})})
+				case 3:
+					e.Restart()
+				}
+				second := e.Exec(Tx{Msgs: msgs1(&ct.MsgReceiveMessage{From: Acct(OtherIx), Message: raw, Attestation: e.Attest(raw, 1)}), Note: "C04 replay after administrative actions"})
+				rc.Cov.Cell("C04_replays", fmt.Sprintf("kind%d/first=%v/second=%v", k%4, first.OK, second.OK))
+			}
+			c04Conservation(e)
+		}
 		// interleave with every other transaction type
 		g := NewGen(e)
 		g.BigAmts = double
